@@ -57,7 +57,7 @@ REG.add(Contract(f"{IC}._adjust_with_root_prefix", module=M_CV, kind="classmetho
                  defn="adjusted(module_name, absolute_import_prefix, all_internal_modules)", properties=["C02", "C04"]))
 # the import records one ast node contributes (property C02's table)
 REG.macro("abs_target", ["base", "an", "internal"], "(base + '.' + an) if ((base + '.' + an) in internal) else base")
-REG.macro("conv_member", ["node", "name", "prefix", "internal", "i"],
+REG.macro("imp_conv_member", ["node", "name", "prefix", "internal", "i"],
           "(is_ast_import(node) and exists(Opaque[Alias], lambda a: (a in ast_names(node)) and i == mk_imp(name, adjusted(alias_name(a), prefix, internal), adjusted(alias_name(a), prefix, internal)))) or "
           "((not is_ast_import(node)) and is_ast_importfrom(node) and ast_level(node) == 0 and exists(Opaque[Alias], lambda a: (a in ast_names(node)) and "
           "   i == mk_imp(name, abs_target(adjusted(unwrap(ast_module(node)), prefix, internal), alias_name(a), internal), abs_target(adjusted(unwrap(ast_module(node)), prefix, internal), alias_name(a), internal)))) or "
@@ -71,7 +71,7 @@ REG.add(Contract(f"{IC}._convert", module=M_CV, kind="method", view="string",
                  requires=["implies(is_ast_importfrom(module) and ast_level(module) == 0, not is_none(ast_module(module)))"],
                  ensures=["is_none(result) == (not (is_ast_import(module) or is_ast_importfrom(module)))",
                           # C02: one import per alias of 'import a.b.c [as x]'; 'from P import n' names P.n when that is a scanned module and P otherwise; relative forms per alias
-                          "implies(not is_none(result), forall(Imp, lambda i: (i in unwrap(result)) == conv_member(module, module_name, absolute_import_prefix, all_internal_modules, i)))"],
+                          "implies(not is_none(result), forall(Imp, lambda i: (i in unwrap(result)) == imp_conv_member(module, module_name, absolute_import_prefix, all_internal_modules, i)))"],
                  locals=dict(new_imports="Opt[Bag[Imp]]", importees="Bag[Str]"),
                  loops={
                      0: dict(sig="for alias in module.names", invariant=[
@@ -106,7 +106,7 @@ def _stmt_unfold(eng, st, prefix, internal):
         eng.qdepth = 71
         body = eng.truth(eng.ev1(eng.reg.parse_spec(
             "imp_contrib(su_prefix, su_internal, su_n, su_name, su_i) == "
-            "(((not has_stmt_child(su_n)) and conv_member(su_n, su_name, su_prefix, su_internal, su_i)) or "
+            "(((not has_stmt_child(su_n)) and imp_conv_member(su_n, su_name, su_prefix, su_internal, su_i)) or "
             " exists(Opaque[Ast], lambda c: ast_stmt_child(su_n, c) and is_stmt_like(c) and imp_contrib(su_prefix, su_internal, c, su_name, su_i)))"), State()))
         return vbool(z3.ForAll([n.x, nm.x, i.x], body))
     finally:
